@@ -139,12 +139,12 @@ CLAIMED = {
         text='Partial (Python object protocol). From tables regenerated from the source it is proved (finite, exhaustive) that for all '
              '21 types every field written by to_dict is read by from_dict and vice versa, the type tag is the class name, the '
              'dispatcher registry maps exactly these 21 tags to their classes, == accepts only the same class (point/vector by design), '
-             'and exactly which classes compare raw coordinates (key injective) and which compare hash() values of coordinates; for the '
-             'latter the collision hash(-1.0) = hash(-2.0) is proved to identify different coordinate lists (the recorded findings). '
+             'and that every class keys equality and hash on its defining values themselves (injective key; none on hash() values of '
+             'coordinates, for which the collision hash(-1.0) = hash(-2.0) is proved to identify different coordinate lists - the repaired defect). '
              'Bitwise round trips through dict / JSON text / dispatcher / arrays, duplicate(), reflexivity, symmetry, hash agreement and '
              'inequality under a nudged coordinate are searched on full-precision instances of all 21 types.',
         note='Partial: real-object behaviour is validated, not proved; mesh colours cannot be exercised (ladybug.color absent). '
-             'Known findings: hash-keyed equality of 12 classes.',
+             'The hash-keyed equality of 12 classes was repaired (the collision witnesses -1.0 / -2.0 stay in the search).',
         technique='machine-checked Coq proof (exhaustive over tables regenerated from the source) + exact search on real objects'),
     'C14': dict(
         text='Partial (lives partly in the runtime). Proved: an audit table regenerated from the source shows no call to the wall clock, '
